@@ -1665,3 +1665,154 @@ func init() {
 		},
 	})
 }
+
+// ---------------------------------------------------------------------------------------
+// context-keyword: the three CONTEXT errors of the parser -- `return` outside a function,
+// `break` / `continue` outside a loop -- are reported AT THE KEYWORD, whatever follows it.
+// The keyword sits in every kind of place where it is not allowed (rule bodies of every rule
+// kind, nested blocks, if / else branches with and without braces, after a loop that has been
+// closed, a function body for break / continue, a loop in a rule for return, a match block) and is
+// followed by every position class: the end of its line and then blank lines / comment lines /
+// a trailing comment, another token on the same line (`;`, `}`, an operand), the end of the text
+// (with and without a final newline, blanks, a comment), and text that the lexer rejects; in LF,
+// CRLF and mixed line endings, after 0-3 lines of multi-line material. Expected: class syntax,
+// line / col / quoted line of the keyword (computed from the generated text), and the model's.
+// ---------------------------------------------------------------------------------------
+
+type c12CtxWrap struct {
+	name      string
+	pre, post string
+	kws       []string
+}
+
+var c12CtxAll = []string{"return", "break", "continue"}
+var c12CtxLoopKw = []string{"break", "continue"}
+
+var c12CtxWraps = []c12CtxWrap{
+	{"BEGIN body", "BEGIN {\n  x = 1\n  ", "print x\n}\n", c12CtxAll},
+	{"pattern rule body", "$.n > 1 {\n  ", "print $.n\n}\n", c12CtxAll},
+	{"END body, one line", "END { ", "}", c12CtxAll},
+	{"bare rule, first token of the text's block", "{", "}\n", c12CtxAll},
+	{"BEGINFILE body", "BEGINFILE {\n\tn = 0\n\t", "n++\n}\nENDFILE { print n }\n", c12CtxAll},
+	{"if block in a rule", "{\n  if ($ > 1) {\n    y = 2\n    ", "z = 3\n  }\n}\n", c12CtxAll},
+	{"else block in a rule", "{\n  if ($ > 1) {\n    print 1\n  } else {\n    ", "}\n}\n", c12CtxAll},
+	{"if without braces", "BEGIN {\n  if (1)\n    ", "\n  print 2\n}\n", c12CtxAll},
+	{"blocks three deep", "END {\n  {\n    {\n      ", "}\n  }\n}\n", c12CtxAll},
+	{"after a closed for loop", "function f(x) {\n  return x + 1\n}\nBEGIN {\n  for (i = 0; i < 3; i++) {\n    print f(i)\n  }\n  ", "\n}\n", c12CtxAll},
+	{"after a closed while loop with break inside", "BEGIN {\n  while (1) {\n    break\n  }\n  ", "print 1\n}\n", c12CtxAll},
+	{"after a one-statement for-in loop", "{\n  for (v in $) print v\n  ", "\n}\n", c12CtxAll},
+	{"match block in a rule", "BEGIN { match (1) {\n  1 => {\n    ", "}\n}\n}\n", c12CtxAll},
+	{"second rule after a valid first", "BEGIN { print \"ok\" }\n\n{\n  print $\n  ", "\n}\nEND { print \"end\" }\n", c12CtxAll},
+	{"function body", "function f(x) {\n  x = x + 1\n  ", "return x\n}\nBEGIN { print f(1) }\n", c12CtxLoopKw},
+	{"function body after its loop", "function f(x) {\n  while (x < 3) { x++; continue }\n  ", "return x\n}\n", c12CtxLoopKw},
+	{"if block in a function", "function f(x) {\n  if (x) {\n    ", "}\n  return 1\n}\n", c12CtxLoopKw},
+	{"loop body in a rule", "BEGIN {\n  while (i < 3) {\n    i++\n    ", "}\n}\n", []string{"return"}},
+	{"for-in body in a rule, no braces", "{\n  for (v, k in $)\n    ", "\n}\n", []string{"return"}},
+	{"nested loops in END", "END {\n  for (i = 0; i < 2; i++) {\n    for (j = 0; j < 2; j++) {\n      if (i == j) {\n        ", "}\n    }\n  }\n}\n", []string{"return"}},
+}
+
+type c12CtxFollow struct {
+	name string
+	text string
+	eof  bool // nothing after it: the text ends here
+	only string
+}
+
+var c12CtxFollows = []c12CtxFollow{
+	{"end of line", "\n  ", false, ""},
+	{"end of line, three blank lines", "\n\n\n\n  ", false, ""},
+	{"end of line, lines of blanks and tabs", "\n \n\t\n  \t \n", false, ""},
+	{"end of line, comment lines", "\n  # comment é\n\n  # another 日本\n  ", false, ""},
+	{"trailing blanks, end of line", "  \t\n", false, ""},
+	{"trailing comment", " # trailing comment é\n  ", false, ""},
+	{"trailing comment without a blank", "# c\n\n", false, ""},
+	{"semicolon, same line", "; ", false, ""},
+	{"blank, semicolon, end of line", " ;\n  ", false, ""},
+	{"blank, next token on the same line", " ", false, ""},
+	{"tabs, next token on the same line", "\t\t", false, ""},
+	{"closing brace glued on", "}", false, ""},
+	{"value on the same line", " x + 1\n  ", false, "return"},
+	{"value in parentheses over two lines", " (\n    1)\n  ", false, "return"},
+	{"value glued with a semicolon", " 1;", false, "return"},
+	{"end of text", "", true, ""},
+	{"newline, end of text", "\n", true, ""},
+	{"blank lines, end of text", "\n\n  \n", true, ""},
+	{"blanks, end of text", "  ", true, ""},
+	{"comment, end of text", " # the end", true, ""},
+	{"CR LF, end of text", "\r\n", true, ""},
+	{"illegal character on the same line", " @ 1\n  ", false, ""},
+	{"illegal character two lines down", "\n\n  @\n  ", false, ""},
+	{"unterminated string behind", " \"open\n  ", false, ""},
+	{"stray arrow behind", " =>\n  ", false, ""},
+	{"stray closing bracket on the next line", "\n  ]\n  ", false, ""},
+}
+
+var c12CtxPrefix = []string{"# caf\xc3\xa9\n", "\n\n", "#!/usr/bin/env jqawk -f\n", "BEGIN { h = \"first half\nsecond half\" }\n", "function g(a) {\n  return a\n}\n", "BEGIN { u = 'a\r\nb' } # \xe6\x97\xa5\xe6\x9c\xac\n", "  \t\n", "# it's \"quoted\n", "BEGIN { while (0) { break } }\n"}
+
+func c12ContextKeyword(r *rand.Rand, tier string, emit func(Case)) {
+	rounds := tierN(tier, 2, 12)
+	for round := 0; round < rounds; round++ {
+		for _, w := range c12CtxWraps {
+			for _, kw := range w.kws {
+				for _, f := range c12CtxFollows {
+					if f.only != "" && f.only != kw {
+						continue
+					}
+					for _, eol := range []string{"LF", "CRLF", "mixed"} {
+						if round == 0 && eol == "mixed" || round > 0 && eol != "LF" && !chance(r, 0.5) {
+							continue
+						}
+						var prefix string
+						if round > 0 {
+							for k := r.Intn(4); k > 0; k-- {
+								prefix += pick(r, c12CtxPrefix)
+							}
+						}
+						pre, follow, post := w.pre, f.text, w.post
+						if f.eof {
+							post = ""
+						}
+						if round > 0 && chance(r, 0.3) {
+							kwUp := pick(r, []string{"\t", "      ", ""})
+							if kwUp != "" || strings.HasSuffix(pre, " ") {
+								pre = strings.TrimRight(pre, " \t") + kwUp
+								if !strings.HasSuffix(pre, "\n") && !strings.HasSuffix(pre, "{") && kwUp == "" {
+									pre += " "
+								}
+							}
+						}
+						crlf := func(s string) string { return strings.ReplaceAll(strings.ReplaceAll(s, "\r\n", "\n"), "\n", "\r\n") }
+						switch eol {
+						case "CRLF":
+							prefix, pre, follow, post = crlf(prefix), crlf(pre), crlf(follow), crlf(post)
+						case "mixed":
+							switch r.Intn(3) {
+							case 0:
+								prefix, pre = crlf(prefix), crlf(pre)
+							case 1:
+								follow = crlf(follow)
+							default:
+								pre, post = crlf(pre), crlf(post)
+							}
+						}
+						off := len(prefix) + len(pre)
+						text := prefix + pre + kw + follow + post
+						wl, wc, wsrc := c12LineOf(text, off)
+						emit(Case{Req: RunReq(text, nil, nil, false), Fields: c12Fields,
+							Meta: metaProg(text, "keyword", kw, "place", w.name, "what follows the keyword", f.name, "line endings", eol,
+								"expected", fmt.Sprintf("syntax error at line %d col %d, quoting %q", wl, wc, wsrc), "row", kw+" / "+w.name, "col", f.name),
+							Oracle: c12At(text, "syntax", off, len(kw)), NonTrivial: c12ErrNT})
+					}
+				}
+			}
+		}
+	}
+}
+
+func init() {
+	register(Family{
+		Name: "context-keyword", Prop: "C12",
+		Rule: "the parser's context errors -- `return` outside a function, `break` / `continue` outside a loop -- with the keyword in 20 kinds of place where it is not allowed (bodies of BEGIN / END / BEGINFILE / pattern / bare rules, one-line bodies, if and else blocks, an if without braces, blocks three deep, after a closed for / while / for-in loop (also one whose body holds a legal break), a match block, a later rule, function bodies and their if blocks for break / continue, loop bodies in rules for return) x 26 things that follow it (the end of its line then nothing / blank lines / lines of blanks / comment lines; trailing blanks; a trailing comment; `;`; another token on the same line after a blank or tabs; a glued `}`; for return a value on the same line, over two lines, glued; the END OF THE TEXT with and without newline / blanks / comment / CR LF; an illegal character on the same line or two lines down, an unterminated string, a stray `=>` or `]` behind it) x LF / CRLF / mixed line endings, from the second round on after 0-3 lines of leading material (comments, shebang, rules with multi-line strings, a function, a legal loop with break) and with other indentation. Oracle: class syntax and line / col / quoted line of the KEYWORD, computed from the generated text; compared with the model. Matrix: keyword and place x what follows.",
+		Gen:  c12ContextKeyword,
+	})
+}
